@@ -13,6 +13,16 @@ package httpserver
 // discards the completion signal of SetMaxConnection (the shrink is then only *observed* to be
 // in force: exactly the new cap of a fresh wave of clients is served - bounded progress,
 // watchdog => inconclusive).
+//
+// Listener re-creation (kind "listener-recreated"): the cap in force must survive every way the
+// runtime replaces its listener after maxConnections was changed at run time: a reload that needs
+// a restart (closeServer + startServer), and the runtime's own restart of a failed server
+// (stateFailed -> checkFailed ticker -> startServer) after a serve failure (the accept of the
+// underlying listener fails) or after a failed listen (port taken at a restart).  A re-created
+// listener has a fresh semaphore, so once every connection of the old listener is closed the bound
+// is exactly the maxConnections configured last.  The automatic restart waits for the runtime's
+// real 10 s ticker: those cases are prepared first, wait while the other cases run, and are
+// decided at the end (the wait is never a verdict: restart not observed => inconclusive).
 
 import (
 	"bufio"
@@ -55,8 +65,14 @@ func c17WD() time.Duration {
 type c17Mapper struct{}
 type c17Handler struct{}
 
+// c17Handled counts handler invocations.  A handler runs in a goroutine started (transitively) by
+// the fsm's startServer, after r.limitListener was assigned; loading the counter after a response
+// was seen orders the controller behind that assignment before it touches rt.limitListener.
+var c17Handled int64
+
 func (c17Mapper) GetHandler(name string) (context.Handler, bool) { return c17Handler{}, true }
 func (c17Handler) Handle(ctx *context.Context) string {
+	atomic.AddInt64(&c17Handled, 1)
 	resp, _ := httpprot.NewResponse(nil)
 	resp.SetStatusCode(200)
 	ctx.SetResponse(context.DefaultNamespace, resp)
@@ -69,6 +85,14 @@ type c17HCase struct {
 	NewCap  int    `json:"newCap,omitempty"`
 	Seq     []int  `json:"seq,omitempty"` // b2b-reload-mix: maxConnections of the reloads, in order
 	Clients int    `json:"clients"`
+
+	// listener-recreated
+	Way       string `json:"way,omitempty"`       // restart-reload | auto-restart-after-serve-failure | auto-restart-after-listen-failure
+	When      string `json:"when,omitempty"`      // where the run-time changes of maxConnections sit relative to the restart / failure
+	Hot       []int  `json:"hot,omitempty"`       // hot reloads (no restart needed) while the first listener is serving
+	HotFailed []int  `json:"hotFailed,omitempty"` // hot reloads while the runtime is in state failed
+	Carried   int    `json:"carried,omitempty"`   // maxConnections carried by the reload that needs a restart
+	Final     int    `json:"final,omitempty"`     // maxConnections configured last = the cap of the re-created listener
 }
 
 type c17HMon struct {
@@ -100,8 +124,11 @@ type c17HClient struct {
 	relOnce   sync.Once
 }
 
-func c17Yaml(port, maxConn int) string {
-	return fmt.Sprintf("kind: HTTPServer\nname: c17\nport: %d\nkeepAlive: true\nkeepAliveTimeout: 3600s\nhttps: false\nmaxConnections: %d\nrules:\n- paths:\n  - pathPrefix: /\n    backend: be\n", port, maxConn)
+func c17Yaml(port, maxConn int) string { return c17YamlKA(port, maxConn, 3600) }
+
+// c17YamlKA: keepAliveTimeout is a field whose change needs a restart of the server.
+func c17YamlKA(port, maxConn, keepAliveSec int) string {
+	return fmt.Sprintf("kind: HTTPServer\nname: c17\nport: %d\nkeepAlive: true\nkeepAliveTimeout: %ds\nhttps: false\nmaxConnections: %d\nrules:\n- paths:\n  - pathPrefix: /\n    backend: be\n", port, keepAliveSec, maxConn)
 }
 
 func (m *c17HMon) inconclusive(why string) {
@@ -114,6 +141,9 @@ func (m *c17HMon) inconclusive(why string) {
 		m.mu.Lock()
 		g := m.gauge
 		m.mu.Unlock()
+		if m.cs.Way != "" {
+			st = fmt.Sprintf(" way=%s order=%s final=%d", m.cs.Way, m.cs.When, m.cs.Final) + st
+		}
 		m.r.Inconclusive(why + fmt.Sprintf(" [kind=%s cap=%d new=%d open=%d%s]", m.cs.Kind, m.cs.Cap, m.cs.NewCap, g, st))
 	}
 }
@@ -368,18 +398,18 @@ func c17HSeq(rng *rand.Rand, cap0 int, mustRepeat bool) []int {
 	}
 }
 
-func c17HRun(r *kit.Run, cs *c17HCase, rng *rand.Rand) {
-	m := &c17HMon{r: r, cs: cs, bound: cs.Cap, ctx: "steady:initial"}
+// c17HStart creates a runtime on a free loopback port and waits until it accepts connections.
+func c17HStart(r *kit.Run, m *c17HMon, maxConn int) (*runtime, int) {
 	var rt *runtime
 	var port int
 	lastErr := ""
 	prng := rand.New(rand.NewSource(time.Now().UnixNano() ^ int64(os.Getpid())<<20)) // port choice only; not part of the case
 	for try := 0; try < 8 && rt == nil; try++ {
 		port = c17FreePort(prng)
-		ss, err := supervisor.NewSpec(c17Yaml(port, cs.Cap))
+		ss, err := supervisor.NewSpec(c17Yaml(port, maxConn))
 		if err != nil {
 			r.Inconclusive("spec rejected: " + err.Error())
-			return
+			return nil, 0
 		}
 		x := newRuntime(ss, c17Mapper{})
 		x.eventChan <- &eventReload{nextSuperSpec: ss, muxMapper: c17Mapper{}}
@@ -405,15 +435,24 @@ func c17HRun(r *kit.Run, cs *c17HCase, rng *rand.Rand) {
 			lastErr = fmt.Sprintf("state=%s err=%v port=%d", x.getState(), x.getError(), port)
 			x.Close()
 			if !ok {
-				return
+				return nil, 0
 			}
 		}
 	}
 	if rt == nil {
 		r.Inconclusive("runtime could not listen: " + lastErr)
-		return
+		return nil, 0
 	}
 	m.rt = rt
+	return rt, port
+}
+
+func c17HRun(r *kit.Run, cs *c17HCase, rng *rand.Rand) {
+	m := &c17HMon{r: r, cs: cs, bound: cs.Cap, ctx: "steady:initial"}
+	rt, port := c17HStart(r, m, cs.Cap)
+	if rt == nil {
+		return
+	}
 	addr := fmt.Sprintf("127.0.0.1:%d", port)
 	reload := func(n int) {
 		ss, err := supervisor.NewSpec(c17Yaml(port, n))
@@ -603,13 +642,387 @@ func c17HRun(r *kit.Run, cs *c17HCase, rng *rand.Rand) {
 	}
 }
 
+// ---- listener re-creation after a run-time change of maxConnections ----
+
+const (
+	c17WayRestartReload = "restart-reload"
+	c17WayServeFailure  = "auto-restart-after-serve-failure"
+	c17WayListenFailure = "auto-restart-after-listen-failure"
+)
+
+// c17HRecreateCase draws case j of the class: way and order cycle (so that every shard gets a
+// mix), three of four groups end below the cap of the first listener, one above.
+func c17HRecreateCase(rng *rand.Rand, j int) *c17HCase {
+	cs := &c17HCase{Kind: "listener-recreated", Cap: 3 + rng.Intn(4)}
+	cs.Way = []string{c17WayRestartReload, c17WayServeFailure, c17WayListenFailure}[(j+j/3)%3]
+	order := (j / 3) % 3
+	other := func(not ...int) int { // a cap in 1..10 different from all of not
+		for {
+			c := 1 + rng.Intn(10)
+			ok := true
+			for _, x := range not {
+				ok = ok && c != x
+			}
+			if ok {
+				return c
+			}
+		}
+	}
+	if (j/3)%4 == 3 {
+		cs.Final = cs.Cap + 1 + rng.Intn(4)
+	} else {
+		cs.Final = 1 + rng.Intn(cs.Cap-1)
+	}
+	// 1-3 hot changes ending in last; the ones before it are arbitrary (1..10)
+	hotSeq := func(last int) []int {
+		var out []int
+		for k := rng.Intn(3); k > 0; k-- {
+			out = append(out, 1+rng.Intn(10))
+		}
+		return append(out, last)
+	}
+	if cs.Way == c17WayRestartReload {
+		switch order {
+		case 0:
+			cs.When = "hot-change-then-restart-reload-with-the-same-maxConnections"
+			cs.Hot, cs.Carried = hotSeq(cs.Final), cs.Final
+		case 1:
+			cs.When = "maxConnections-changed-by-the-restart-reload-itself"
+			cs.Carried = cs.Final
+		default:
+			cs.When = "hot-change-then-restart-reload-with-another-maxConnections"
+			cs.Hot, cs.Carried = hotSeq(other(cs.Final, cs.Cap)), cs.Final
+		}
+	} else {
+		switch order {
+		case 0:
+			cs.When = "hot-change-before-the-failure"
+			cs.Hot = hotSeq(cs.Final)
+		case 1:
+			cs.When = "hot-change-while-failed"
+			cs.HotFailed = hotSeq(cs.Final)
+		default:
+			cs.When = "hot-changes-before-the-failure-and-while-failed"
+			cs.Hot, cs.HotFailed = hotSeq(other(cs.Final, cs.Cap)), hotSeq(cs.Final)
+		}
+		if cs.Way == c17WayListenFailure {
+			// the reload that moves the server to the (taken) port carries the cap configured so far
+			cs.Carried = cs.Cap
+			if len(cs.Hot) > 0 {
+				cs.Carried = cs.Hot[len(cs.Hot)-1]
+			}
+		}
+	}
+	maxc := cs.Cap
+	for _, c := range append(append([]int{cs.Final, cs.Carried}, cs.Hot...), cs.HotFailed...) {
+		if c > maxc {
+			maxc = c
+		}
+	}
+	cs.Clients = maxc + 2 + rng.Intn(3)
+	return cs
+}
+
+// c17HPend is a listener-recreated case between its preparation and its verdict.
+type c17HPend struct {
+	idx     int
+	r       *kit.Run
+	m       *c17HMon
+	cs      *c17HCase
+	rt      *runtime
+	port    int
+	ka      int
+	all     []*c17HClient
+	blocker net.Listener
+	since   time.Time // when the failure was observed
+}
+
+func (p *c17HPend) teardown() {
+	m := p.m
+	atomic.StoreInt32(&m.teardown, 1)
+	if p.blocker != nil {
+		p.blocker.Close()
+	}
+	for _, c := range p.all {
+		c.free()
+	}
+	p.rt.Close()
+	for _, c := range p.all {
+		<-c.done
+	}
+	m.mu.Lock()
+	p.r.Max("max:served_open_connections", int64(m.maxGauge))
+	p.r.Cover(fmt.Sprintf("%s/%s/%s/cap=%d/final=%d/max=%d", p.cs.Kind, p.cs.Way, p.cs.When, p.cs.Cap, p.cs.Final, m.maxGauge))
+	m.mu.Unlock()
+}
+
+func (p *c17HPend) reload(port, maxConn, ka int) bool {
+	ss, err := supervisor.NewSpec(c17YamlKA(port, maxConn, ka))
+	if err != nil {
+		p.m.inconclusive("spec rejected: " + err.Error())
+		return false
+	}
+	p.rt.eventChan <- &eventReload{nextSuperSpec: ss, muxMapper: c17Mapper{}}
+	p.r.Count("reloads", 1)
+	return true
+}
+
+// barrier returns when the fsm has finished every event queued so far: a stale serve-failed event
+// (startNum 0 < the current one: ignored by the runtime) is queued behind them and the fsm, which
+// handles one event at a time, has taken it.
+func (p *c17HPend) barrier(what string) bool {
+	p.rt.eventChan <- &eventServeFailed{err: fmt.Errorf("c17 barrier"), startNum: 0}
+	return p.m.waitUntil(what, func() bool { return len(p.rt.eventChan) == 0 })
+}
+
+// c17HoldPort binds a free port below the ephemeral range on all interfaces and keeps it.
+func c17HoldPort(rng *rand.Rand) (net.Listener, int) {
+	for try := 0; try < 200; try++ {
+		q := 10000 + rng.Intn(20000)
+		l, err := net.Listen("tcp", fmt.Sprintf(":%d", q))
+		if err == nil {
+			return l, q
+		}
+	}
+	return nil, 0
+}
+
+// c17HRecreatePrepare runs the case up to the point where the listener is about to be re-created:
+// saturated first listener, hot changes, every connection closed, restart reload or injected
+// failure (+ hot changes while failed).  nil: the case was given up (inconclusive recorded).
+func c17HRecreatePrepare(r *kit.Run, cs *c17HCase) *c17HPend {
+	m := &c17HMon{r: r, cs: cs, bound: cs.Cap, ctx: "steady:initial"}
+	rt, port := c17HStart(r, m, cs.Cap)
+	if rt == nil {
+		return nil
+	}
+	p := &c17HPend{r: r, m: m, cs: cs, rt: rt, port: port, ka: 3600}
+	ok := false
+	defer func() {
+		if !ok {
+			p.teardown()
+		}
+	}()
+	wave := m.spawn(fmt.Sprintf("127.0.0.1:%d", port), cs.Clients, 0)
+	p.all = append(p.all, wave...)
+	if !m.waitUntil("cap clients to be served", func() bool { return m.open() >= cs.Cap }) {
+		return nil
+	}
+	time.Sleep(30 * time.Millisecond)
+	if c17ServedCount(wave) < len(wave) {
+		r.Count("held_back_clients_seen_at_cap", 1)
+	}
+	// hot changes on the serving listener; the bound covers every cap involved, never lowered
+	// while this listener exists
+	maxc := cs.Cap
+	for _, c := range cs.Hot {
+		if c > maxc {
+			maxc = c
+		}
+	}
+	if len(cs.Hot) > 0 {
+		m.setCtx("hot-changes-before-listener-recreation", maxc)
+		for _, c := range cs.Hot {
+			if !p.reload(port, c, p.ka) {
+				return nil
+			}
+		}
+		if !p.barrier("the hot reloads to be handled") {
+			return nil
+		}
+		if st := rt.getState(); st != stateRunning {
+			m.inconclusive("runtime left state running on a reload that changes maxConnections only")
+			return nil
+		}
+		r.Count("http_hot_change_before_listener_recreation", 1)
+		time.Sleep(20 * time.Millisecond)
+	}
+	// Every connection of the first listener is closed before the listener is replaced (what
+	// happens to them at a restart / failure is not the subject); served ones answer a second
+	// request first: the hot changes dropped nothing.
+	c17FreeAll(wave)
+	if m.open() != 0 {
+		m.inconclusive("harness: connections still counted after all clients were released")
+		return nil
+	}
+	if atomic.LoadInt64(&c17Handled) == 0 { // also the happens-before edge for rt.limitListener below
+		m.inconclusive("harness: no handler invocation seen")
+		return nil
+	}
+
+	hotWhileFailed := func() bool {
+		if len(cs.HotFailed) == 0 {
+			return true
+		}
+		for _, c := range cs.HotFailed {
+			if !p.reload(p.port, c, p.ka) {
+				return false
+			}
+		}
+		if !p.barrier("the reloads in state failed to be handled") {
+			return false
+		}
+		r.Count("http_hot_change_while_failed", 1)
+		return true
+	}
+	switch cs.Way {
+	case c17WayRestartReload:
+		p.ka = 3601
+		if !p.reload(port, cs.Carried, p.ka) {
+			return nil
+		}
+		if !p.barrier("the restart reload to be handled") {
+			return nil
+		}
+	case c17WayServeFailure:
+		// the accept of the underlying listener fails for good: Serve returns, the runtime is told
+		ll := rt.limitListener
+		ll.Listener.Close()
+		if !m.waitUntil("state failed after the serve failure", func() bool { return rt.getState() == stateFailed }) {
+			return nil
+		}
+		p.since = time.Now()
+		r.Count("http_serve_failure_injected", 1)
+		if !hotWhileFailed() {
+			return nil
+		}
+	case c17WayListenFailure:
+		// the server is moved to a port that somebody else holds: the restart cannot listen
+		prng := rand.New(rand.NewSource(time.Now().UnixNano() ^ int64(os.Getpid())<<20))
+		bl, q := c17HoldPort(prng)
+		if bl == nil {
+			m.inconclusive("harness: no port to hold")
+			return nil
+		}
+		p.blocker, p.port = bl, q
+		if !p.reload(q, cs.Carried, p.ka) {
+			return nil
+		}
+		if !p.barrier("the reload to the taken port to be handled") {
+			return nil
+		}
+		if st := rt.getState(); st != stateFailed {
+			m.inconclusive("listen failure not injected: state " + string(st) + " after a restart on a taken port")
+			return nil
+		}
+		p.since = time.Now()
+		r.Count("http_listen_failure_injected", 1)
+		if !hotWhileFailed() {
+			return nil
+		}
+		bl.Close() // the port is free again: the next automatic restart can listen
+		p.blocker = nil
+	}
+	ok = true
+	return p
+}
+
+// finish waits for the re-created listener and decides: with maxConnections = Final configured
+// last and no connection of the old listener left, never more than Final clients hold an answered
+// connection; Final of them are served (progress, watchdog => inconclusive) and a released
+// connection is replaced.
+func (p *c17HPend) finish() {
+	defer p.teardown()
+	m, cs, r, rt := p.m, p.cs, p.r, p.rt
+	if atomic.LoadInt32(&m.aborted) != 0 {
+		return
+	}
+	wd := c17Watchdog
+	if least := 6 * checkFailedTimeout; wd < least {
+		wd = least
+	}
+	deadline := time.Now().Add(wd)
+	for {
+		if rt.getState() == stateRunning {
+			// stateRunning is published before the listener exists and is taken back when the
+			// listen fails: look again once startServer has returned
+			if !p.barrier("the restart to be completed") {
+				return
+			}
+			if rt.getState() == stateRunning {
+				break
+			}
+		}
+		if time.Now().After(deadline) {
+			m.inconclusive("listener re-creation not observed within " + wd.String() + " (" + cs.Way + ")")
+			return
+		}
+		time.Sleep(5 * time.Millisecond)
+	}
+	if cs.Way != c17WayRestartReload {
+		// lower bound only, for the evidence: the restart came from the runtime's own ticker
+		r.Max("max:ms_between_failure_and_observed_auto_restart", time.Since(p.since).Milliseconds())
+	}
+	ctx := "after-listener-recreated:" + cs.Way + ":" + cs.When
+	m.mu.Lock()
+	if m.gauge != 0 {
+		m.mu.Unlock()
+		m.inconclusive("harness: connections of the old listener still counted")
+		return
+	}
+	m.bound, m.ctx = cs.Final, ctx // fresh listener, fresh semaphore: exactly the cap configured last
+	m.history = append(m.history, fmt.Sprintf("-- %s (cap in force for the oracle %d, open 0)", ctx, m.bound))
+	m.mu.Unlock()
+
+	wave := m.spawn(fmt.Sprintf("127.0.0.1:%d", p.port), cs.Clients, 5000)
+	p.all = append(p.all, wave...)
+	if !m.waitUntil("Final clients to be served by the re-created listener", func() bool { return c17ServedCount(wave) >= cs.Final }) {
+		return
+	}
+	time.Sleep(50 * time.Millisecond) // lower bound only: an over-admission shows here
+	for _, c := range wave {
+		if c.isServed() {
+			c.free()
+			<-c.done
+			break
+		}
+	}
+	if !m.waitUntil("released capacity to be reused on the re-created listener", func() bool { return c17ServedCount(wave) >= cs.Final+1 }) {
+		return
+	}
+	time.Sleep(20 * time.Millisecond)
+	r.Count("http_cap_observed_after_listener_recreated:"+cs.Way, 1)
+	if cs.Final < cs.Cap {
+		r.Count("http_lower_cap_survives_listener_recreation", 1)
+	} else {
+		r.Count("http_higher_cap_survives_listener_recreation", 1)
+	}
+}
+
 func TestVerif_C17_HTTPRuntime(t *testing.T) {
 	r := kit.Start(t, "C17")
 	defer r.Finish()
-	r.Rule("a real httpserver runtime (fsm + http.Server + gnet.Listen + LimitListener) per case on a loopback port with maxConnections = cap in 2..6 and cap+4..cap+8 raw keep-alive HTTP clients that hold their connection; kinds: steady + reuse of released capacity | grow through a reload event | shrink through a reload event (observed in force on fresh waves) | shrink-then-grow in two back-to-back reloads at saturation | repeated identical reloads | 3-6 back-to-back reloads at saturation mixing shrinks below the usage, reloads that keep maxConnections (also over a shrink that cannot have been applied), grows and returns to earlier values, nothing closing in between (bound = max of all caps involved); oracle: clients that got a response and have not closed <= cap in force at every response; a held connection still answers a second request before it is closed; distinct = (kind, cap, new cap, max served)")
+	r.Rule("a real httpserver runtime (fsm + http.Server + gnet.Listen + LimitListener) per case on a loopback port with maxConnections = cap in 2..6 and cap+4..cap+8 raw keep-alive HTTP clients that hold their connection; kinds: steady + reuse of released capacity | grow through a reload event | shrink through a reload event (observed in force on fresh waves) | shrink-then-grow in two back-to-back reloads at saturation | repeated identical reloads | 3-6 back-to-back reloads at saturation mixing shrinks below the usage, reloads that keep maxConnections (also over a shrink that cannot have been applied), grows and returns to earlier values, nothing closing in between (bound = max of all caps involved) | listener-recreated (extra case indices after the others): maxConnections is changed at run time by 1-3 reloads that need no restart (3 of 4 groups end below the first cap, 1 above), every connection is closed, and the listener is then re-created in one of three ways - a reload that needs a restart (keepAliveTimeout changed; carrying the same cap, another cap, or being itself the only cap change), the runtime's own restart (stateFailed -> 10 s checkFailed ticker -> startServer) after a serve failure (underlying listener closed under the accept loop) or after a failed listen (reload to a port the harness holds, released later) - with the hot changes before the failure, while the runtime is failed, or both; a fresh wave of more clients than every cap involved then meets the re-created listener (bound = exactly the maxConnections configured last; that many are served and a released connection is replaced: progress); the ticker cases are prepared first and decided after the other cases ran, a restart that is not observed is inconclusive; oracle: clients that got a response and have not closed <= cap in force at every response; a held connection still answers a second request before it is closed; distinct = (kind, cap, new cap, max served) resp. (kind, way, order, cap, final cap, max served)")
 	r.Assume("the completion of a shrinking reload is not observable through the runtime, so after it the bound of the oracle stays at the old cap and the new cap is only observed (progress)")
+	r.Assume("a re-created listener (restart reload, automatic restart of a failed server) starts with a fresh semaphore: once every connection of the previous listener is closed, the cap in force is exactly the maxConnections configured last; what a restart or a serve failure does to connections that are still open is not judged (they are closed before)")
 	kinds := []string{"steady-reuse", "grow", "shrink", "shrink-then-grow-b2b", "repeated-identical", "b2b-reload-mix"}
 	n := r.N(48, 1200)
+	// listener-recreated cases have the indices n..n+nr-1.  They are prepared first; the ones that
+	// wait for the runtime's 10 s checkFailed ticker are decided after the other cases have run
+	// (Case(i) is logged again before the verdict phase).
+	nr := r.N(12, 180)
+	var pend []*c17HPend
+	for j := 0; j < nr; j++ {
+		i := n + j
+		if !r.Mine(i) {
+			continue
+		}
+		cs := c17HRecreateCase(r.CaseRand(i), j)
+		r.Case(i, cs)
+		if j < 1 {
+			r.Sample(cs)
+		}
+		p := c17HRecreatePrepare(r, cs)
+		if p == nil {
+			continue
+		}
+		p.idx = i
+		if cs.Way == c17WayRestartReload {
+			p.finish()
+		} else {
+			pend = append(pend, p)
+		}
+	}
 	for i := 0; i < n; i++ {
 		if !r.Mine(i) {
 			continue
@@ -639,8 +1052,15 @@ func TestVerif_C17_HTTPRuntime(t *testing.T) {
 		}
 		c17HRun(r, cs, rng)
 	}
+	for _, p := range pend {
+		r.Case(p.idx, p.cs)
+		p.finish()
+	}
 	for _, k := range []string{"served_reaching_cap", "held_back_clients_seen_at_cap", "released_capacity_reused", "grow_through_reload_observed", "shrink_through_reload_observed_in_force", "second_request_on_held_connection_ok", "reloads",
-		"http_shrink_reload_at_saturation", "http_identical_reload_over_unapplied_shrink", "http_grow_reload_right_after_identical_over_unapplied_shrink"} {
+		"http_shrink_reload_at_saturation", "http_identical_reload_over_unapplied_shrink", "http_grow_reload_right_after_identical_over_unapplied_shrink",
+		"http_hot_change_before_listener_recreation", "http_hot_change_while_failed", "http_serve_failure_injected", "http_listen_failure_injected",
+		"http_cap_observed_after_listener_recreated:" + c17WayRestartReload, "http_cap_observed_after_listener_recreated:" + c17WayServeFailure, "http_cap_observed_after_listener_recreated:" + c17WayListenFailure,
+		"http_lower_cap_survives_listener_recreation", "http_higher_cap_survives_listener_recreation"} {
 		r.Require(k, 1)
 	}
 }
